@@ -4,6 +4,8 @@ from lib.common import *
 
 
 def main(tier, replay=None):
+    if replay:
+        return vk_replay("C10", replay)
     res = Result("C10", tier, "exploration")
     rd = rundir("C10")
     src = scratch_build(rd, "asan")
@@ -20,6 +22,12 @@ def main(tier, replay=None):
         d = os.path.join(rd, "hup%d" % i); os.makedirs(d)
         jobs.append(("%s %s %d %d hup </dev/null" % (exe, d, i, nh), "HUP reread [shard %d/%d]" % (i, nh)))
     res.run_parallel(jobs)
+    # process level: the real qmail-send preprocessing real envelopes, with locals/virtualdomains edited before every HUP
+    vk_build()
+    plain = scratch_build(rd, "plain")
+    eb = 2 if tier == "quick" else 3
+    for name, opts in (("mixed-envelopes-and-hup", ["msgs=mix5+mix5b+l1r1"]), ("catch-all-and-hup", ["msgs=mix5+r2+v1", "catchall=1"])):
+        vk_run(res, "daemon", plain, rd, "0,0,0,%d" % eb, eb, 1500, "qmail-send-" + name, opts=["monitors=C10,C04", "inject=event", "verdicts=K", "reorder=1", "hupedit=1"] + opts)
     if tier == "quick":
         res.notes.append("quick tier runs 1 of 4 shards of the HUP family (every 4th configuration pair); thorough runs all")
     res.rule = ("full product of locals (4 subsets) x virtualdomains (256 subsets of 8 entries: user, domain, 3 wildcards, catch-all, "
@@ -27,8 +35,13 @@ def main(tier, replay=None):
                 "getcontrols(); for each, 143 addresses (11 local parts x 13 domain suffixes incl. case changes, extra labels, no @, trailing @, "
                 "several @ and %); HUP family: configuration pairs A->B through the real regetcontrols(); non-trivial/distinct = distinct "
                 "(channel, rewritten address) results; senderadd(): 10 sender forms x 7 recipients")
+    res.rule += ("; process level (VK): histories of the real qmail-send "
+                "(deviation bound %d: injection times, TERM/ALRM/HUP, each HUP preceded by an edit of locals and virtualdomains that makes a remote "
+                "domain local and adds a virtual domain, or back) over 5-recipient envelopes mixing local, virtual, wildcard-virtual, catch-all, "
+                "exception and remote recipients in mixed case: local/N and remote/N must be the order-preserving partition of the envelope under "
+                "the configuration read last, info/N holds the sender, and every delivery command carries the documented channel, address and sender" % eb)
     res.assumptions = ["model in seq/c10_rewrite.c written from qmail-send(8)/addresses(5)/envelopes(5)",
                        "percent hack whose 'fqdn' itself contains '@' with further '%' to its left is unspecified by the documents: such cases are executed (memory safety) but not compared",
                        "duplicate keys in a control file are outside the domain (property text)"]
-    res.require_nonzero("evaluations", "routed_local", "routed_virtual", "routed_remote", "percent_hack_applied", "hup_rereads", "senderadd_cases")
+    res.require_nonzero("evaluations", "routed_local", "routed_virtual", "routed_remote", "percent_hack_applied", "hup_rereads", "senderadd_cases", "partitions_checked", "control_edits")
     return res.finish()
